@@ -43,12 +43,14 @@ fn main() {
     "serde-check" => oprf::serde_check(&a),
     "protocol-replay" => protocol::replay(&a),
     "srv-replay" => srv::replay(&a),
+    "srv-alltags" => srv::alltags(&a),
     "srv-record" => srv::record(&a),
     "recover-replay" => star::recover_replay(&a),
     "star-record" => star2::record(&a),
     "tamper-sweep" => star2::tamper_sweep(&a),
     "adss-sizes" => star2::adss_sizes(&a),
     "secret-scan" => star2::secret_scan(&a),
+    "length-sweep" => star2::length_sweep(&a),
     "cipher-check" => star2::cipher_check(&a),
     other => {
       eprintln!("unknown subcommand {other}");
